@@ -1,7 +1,7 @@
 """C07 — failures and panics are contained in their iteration and classified correctly."""
 from . import _scn
 ID = "C07"
-PROPS = ["F1Verif.Props.C07"]
+PROPS = ["F1Verif.Props.C07", "F1Verif.Props.FactsC07"]
 ALSO = ["F1Verif.Props.Handle"]
 RULE = ("engine A (component level): per-worker behaviour sequences over the alphabet pass / Fail / Error(f) / FailNow / "
         "Fatal(f) / failed assertion / panic with error, string, arbitrary value, runtime error (nil-map write) and nil, "
